@@ -14,7 +14,7 @@ free arithmetics off (the guarded `-=` and `*=`).  Every binning kind is covered
 included, for every `FloatOps` instance and every search fuel.
 -/
 namespace Physt
-open H1
+open Grid H1
 
 /-- **Well-formed after any history**: shapes of contents, squared errors and bins match, no squared
     error and no content is negative — whatever calls were made, accepted or refused. -/
@@ -51,6 +51,37 @@ theorem C18_refused_fill_n_adaptive (fo : FloatOps) (fuel : Nat) (h : H1) (vs : 
     ∃ n r, (next fo fuel h (.fillN vs ws wk)).freq = reshape1 h.freq n r ∧
            (next fo fuel h (.fillN vs ws wk)).err2 = reshape1 h.err2 n r :=
   refused_fillN_adaptive_partial fo fuel h vs ws wk e hs
+
+/-- … and **every recorded content stays on its interval**: for a well-formed adaptive grid histogram
+    (strictly increasing edges, every value of the batch within reach of the search) the refused
+    call leaves a grid on the same `w`, `shift` that contains the old range, and the arrays are the
+    old ones padded with zeros — `a` new cells on the left, the rest on the right.  No content per
+    bin interval changes, which is what the property asks of a call that raises. -/
+theorem C18_refused_fill_n_adaptive_intervals (fo : FloatOps) (fuel : Nat) (h : H1) (g : Grid) (st : GridState h g)
+    (hpos : 0 < g.count) (hm : EdgeMono fo g.w g.shift) (vs : List (Option Rat)) (ws : Option (List Rat)) (wk : DType)
+    (e : String) (hs : step fo fuel h (.fillN vs ws wk) = .error e)
+    (hreach : ∀ v ∈ vs.filterMap id, Reach fo g.w g.shift fuel v) :
+    ∃ g' : Grid, (next fo fuel h (.fillN vs ws wk)).binning = .fixed g' ∧ g'.w = g.w ∧ g'.shift = g.shift ∧
+      g'.tmin ≤ g.tmin ∧ g.tmin + g.count ≤ g'.tmin + g'.count ∧
+      (next fo fuel h (.fillN vs ws wk)).freq
+        = List.replicate (g.tmin - g'.tmin).toNat 0 ++ h.freq ++
+          List.replicate (g'.count - (g.tmin - g'.tmin).toNat - g.count) 0 ∧
+      (next fo fuel h (.fillN vs ws wk)).err2
+        = List.replicate (g.tmin - g'.tmin).toNat 0 ++ h.err2 ++
+          List.replicate (g'.count - (g.tmin - g'.tmin).toNat - g.count) 0 := by
+  obtain ⟨hnext, _⟩ := refused_fillN_adaptive_partial fo fuel h vs ws wk e hs
+  rw [hnext]
+  obtain ⟨_, _, _, hok, hull⟩ := forceMany_spec fo fuel g st.align st.ire hm (vs.filterMap id) hreach
+  have hadapt : h.adapt fo fuel (vs.filterMap id) false =
+      { h with binning := .fixed (g.forceMany fo fuel (vs.filterMap id) g.ire).1,
+               freq := reshape1 h.freq (g.forceMany fo fuel (vs.filterMap id) g.ire).1.count (g.forceMany fo fuel (vs.filterMap id) g.ire).2,
+               err2 := reshape1 h.err2 (g.forceMany fo fuel (vs.filterMap id) g.ire).1.count (g.forceMany fo fuel (vs.filterMap id) g.ire).2 } := by
+    unfold H1.adapt
+    simp only [st.binning, st.adaptive, if_true, Bool.false_eq_true, if_false]
+  rw [hadapt]
+  have rf := (reshape1_of_ok hok h.freq st.flen).2 hpos
+  have re := (reshape1_of_ok hok h.err2 st.elen).2 hpos
+  exact ⟨_, rfl, hull.w, hull.shift, hull.keepLo hpos, hull.keepHi hpos, rf, re⟩
 
 /-- **Subtracting more than is there is refused** (same bins, free arithmetics off). -/
 theorem C18_sub_larger_refused (fo : FloatOps) (h o : H1) (hs : h.sameBins fo o = true) (i : Nat)
